@@ -79,7 +79,7 @@ pub fn gen_app(rng: &mut Rng, id: &str) -> (App, [u32; 4]) {
     (builder_app, ver)
 }
 
-fn gen_event(rng: &mut Rng) -> (Event, String) {
+pub fn gen_event(rng: &mut Rng) -> (Event, String) {
     let types = [(EventType::Unknown, 0), (EventType::DownloadComplete, 1), (EventType::InstallComplete, 2), (EventType::UpdateComplete, 3),
         (EventType::UpdateDownloadStarted, 13), (EventType::UpdateDownloadFinished, 14), (EventType::RebootedAfterUpdate, 54)];
     let results = [(EventResult::Error, 0), (EventResult::Success, 1), (EventResult::SuccessAndRestartRequired, 2), (EventResult::SuccessAndAppRestartRequired, 3),
